@@ -225,6 +225,9 @@ PROPS.update({
                 assumptions=["partial: 'shutdown() returns' and 'every acknowledgement completes' are proved as enabledness/progress facts of the model; that the worker and consumer threads keep being scheduled is assumed"]),
     "C15": dict(module="C15", run=mk("C15", ["reads", "evict", "general"], 250, 4000), components=["pool", "stats", "tinylfu", "api"],
                 assumptions=["partial: 'never blocks' is enabledness in the model; that crossbeam's select!{send, default} does not block is exercised with a gated (stalled) and an exited consumer, not proved"]),
+    "C17": dict(module="C17", run=mk("C17", ["boundary", "general", "ttl", "queue1"], 300, 5000), components=["panics", "api", "store", "weights", "admission", "ticker", "sketch", "tinylfu", "queue_worker", "time", "pool"],
+                assumptions=["partial: covers the panic sites the model represents (assert!/unwrap/expect/index operations/i64 overflow under the debug profile/SystemTime addition); allocation failure, thread spawn failure and panics inside dependencies are not modelled",
+                             "documented preconditions: positive weights, a well-formed upsert, an upsert that turns into a put carries a value"]),
     "C16": dict(module="C16", run=mk("C16", ["general", "reads", "ttl", "evict"], 250, 4000), components=["stats", "stats.hit_ratio", "store", "weights", "queue_worker", "api", "admission"]),
 })
 
